@@ -222,7 +222,7 @@ fn alphabets(tier: Tier) -> Alpha {
             v_kinds: vec![0, 2],
             bounds: vec![0, 10_000, 77_000_001, (1 << 60) - 1],
             drifts: vec![0, 1, 1000, 50_000, 999_999_999, 1_000_000_000, u32::MAX],
-            reals: vec![ts_ns(1_700_000_000, 999_999_999), ts_ns(-1_000_000, 5)],
+            reals: vec![ts_ns(1_700_000_000, 999_999_999), ts_ns(-1_000_000, 5), ts_ns(1_700_000_000, 0), ts_ns(0, 500_000_000)],
         },
     }
 }
